@@ -181,7 +181,10 @@ class CallGraph:
                 # chained: st = fn.__ptera_stack__ = Synced(...)
                 for t in n.targets:
                     if isinstance(t, ast.Name):
-                        if isinstance(val, ast.Call):
+                        if isinstance(val, ast.Call) and isinstance(val.func, ast.Name) and val.func.id == "getattr" and len(val.args) >= 2 \
+                                and isinstance(val.args[1], ast.Constant) and val.args[1].value in self.attr_types:
+                            out[t.id] = self.attr_types[val.args[1].value]     # st = getattr(fn, "__ptera_stack__", None)
+                        elif isinstance(val, ast.Call):
                             cq = self._class_of_name(val.func, fi.module)
                             if cq:
                                 out[t.id] = cq
